@@ -1527,12 +1527,13 @@ def build_convs(case, pport):
             return [('send', b'GET /c17/hello HTTP/1.1\r\nHost: px\r\n\r\n'), ('http',),
                     ('send', b'GET /c17/hello HTTP/1.1\r\nHost: px\r\n\r\n'), ('http',), ('shut',), ('eof',)]
         if scn == 'web_big':
-            return [('send', b'GET /c17/big HTTP/1.1\r\nHost: px\r\n\r\n'), ('eof',)]
+            return [('send', b'GET /c17/big HTTP/1.1\r\nHost: px\r\n\r\n'), ('http',), ('shut',), ('eof',)]
         if scn == 'web_static':
-            return [('send', b'GET /%s HTTP/1.1\r\nHost: px\r\n\r\n' % STATIC_NAME.encode()), ('eof',)]
+            return [('send', b'GET /%s HTTP/1.1\r\nHost: px\r\n\r\n' % STATIC_NAME.encode()), ('http',), ('shut',),
+                    ('eof',)]
         if scn == 'web_static_slow_reader':
             return [('send', b'GET /%s HTTP/1.1\r\nHost: px\r\n\r\n' % STATIC_NAME.encode()), ('sleep', 0.4),
-                    ('eof',)]
+                    ('http',), ('shut',), ('eof',)]
         if scn == 'reverse':
             which = b'small' if size < 100000 else b'big'
             return [('send', b'GET /rev/' + which + b' HTTP/1.1\r\nHost: px\r\n\r\n'), ('http',), ('shut',),
@@ -1685,12 +1686,27 @@ def _listener_refs(pids, ports):
     return min(counts)
 
 
+def _listen_inodes():
+    """TCP sockets in LISTEN state: an acceptor's descriptors of the listeners are not connections either
+    (an acceptor that starts late acquires them after its siblings have served the warm-up)"""
+    out = set()
+    for fn in ('/proc/net/tcp', '/proc/net/tcp6'):
+        try:
+            for row in open(fn).read().split('\n')[1:]:
+                f = row.split()
+                if len(f) > 9 and f[3] == '0A':
+                    out.add(f[9])
+        except OSError:
+            pass
+    return out
+
+
 def _socket_fds(pids):
-    """number of descriptors of non-AF_UNIX sockets held by the proxy's processes (listeners + client /
-    upstream connections, also fully closed ones that only a leaked descriptor keeps alive).  AF_UNIX
+    """number of descriptors of connection sockets held by the proxy's processes (client / upstream
+    connections, also fully closed ones that only a leaked descriptor keeps alive).  AF_UNIX
     sockets (work-queue pipes, asyncio self-pipes, created whenever a process gets round to it) are not
     connections and are not counted."""
-    unix = _unix_inodes()
+    unix = _unix_inodes() | _listen_inodes()
     n = 0
     for p in pids:
         try:
